@@ -45,6 +45,10 @@ type tcase struct {
 	// record-keyed handlers: the user parties whose records a successful message of this signer may touch
 	// (default: the signer only)
 	frame func(signer int) []int
+	// signer kind relative to the object the message addresses ("" = the party's static kind): the principal
+	// of the SIBLING object (deputy of the other asset, oracle of other markets only, owner of the other
+	// asset, member of other committees only) is the most tempting non-principal
+	relabel func(signer int) string
 }
 
 func itoa(x int) string      { return strconv.Itoa(x) }
@@ -148,6 +152,11 @@ func (w *world) runCase(t *tcase) {
 		if w.parties[s].module != "" && s == t.ownMod {
 			kind = "own-module-account"
 		}
+		if t.relabel != nil {
+			if k := t.relabel(s); k != "" {
+				kind = k
+			}
+		}
 		allowed := t.allowed(s)
 		role := "other"
 		if allowed {
@@ -226,6 +235,19 @@ func (w *world) casePostPrice(r *c.Rng) *tcase {
 		return false
 	}
 	return &tcase{cmd: "c16.pricefeed.post", pred: "C16_pricefeed_post", principal: principal, allowed: isOracle, ownMod: -1,
+		relabel: func(s int) string {
+			if isOracle(s) {
+				return "oracle"
+			}
+			for _, m := range pk.GetMarkets(w.ctx) {
+				for _, a := range m.Oracles {
+					if a.Equals(w.addr(s)) {
+						return "other-market-oracle"
+					}
+				}
+			}
+			return ""
+		},
 		mk: func(s int) sdk.Msg { return pricefeedtypes.NewMsgPostPrice(w.addr(s).String(), id, price, expiry) },
 		pre: func(s int) []string { return []string{strings.Join(ms, ";"), id, i64(delta)} },
 		post: func(b sdk.Context, s int, ok bool) []string {
@@ -273,6 +295,17 @@ func (w *world) issuanceCases(r *c.Rng) []*tcase {
 		cur = bigs(sup.CurrentSupply.Amount)
 	}
 	isOwner := func(s int) bool { return s == owner }
+	ownerKind := func(s int) string {
+		if s == owner {
+			return "asset-owner"
+		}
+		for _, o := range ik.GetParams(w.ctx).Assets {
+			if o.Owner == w.addr(s).String() {
+				return "other-asset-owner"
+			}
+		}
+		return ""
+	}
 	isBlocked := func(x int) bool {
 		for _, b := range a.BlockedAddresses {
 			if b == w.addr(x).String() {
@@ -308,7 +341,7 @@ func (w *world) issuanceCases(r *c.Rng) []*tcase {
 				}
 			}
 		}
-		out = append(out, &tcase{cmd: "c16.issuance.issue", pred: "C16_issuance_issue", principal: owner, allowed: isOwner, ownMod: pIssuanceM,
+		out = append(out, &tcase{cmd: "c16.issuance.issue", pred: "C16_issuance_issue", principal: owner, allowed: isOwner, ownMod: pIssuanceM, relabel: ownerKind,
 			mk: func(s int) sdk.Msg {
 				return issuancetypes.NewMsgIssueTokens(w.addr(s).String(), coin(denom, amt), w.addr(recv).String())
 			},
@@ -322,7 +355,7 @@ func (w *world) issuanceCases(r *c.Rng) []*tcase {
 	// redeem
 	{
 		amt := r.Range(1, 1000)
-		out = append(out, &tcase{cmd: "c16.issuance.redeem", pred: "C16_issuance_redeem", principal: owner, allowed: isOwner, ownMod: pIssuanceM,
+		out = append(out, &tcase{cmd: "c16.issuance.redeem", pred: "C16_issuance_redeem", principal: owner, allowed: isOwner, ownMod: pIssuanceM, relabel: ownerKind,
 			mk: func(s int) sdk.Msg { return issuancetypes.NewMsgRedeemTokens(w.addr(s).String(), coin(denom, amt)) },
 			pre: func(s int) []string {
 				return append(append(append([]string{}, af...), targetFields(s)...), i64(amt), bigs(w.bal(w.ctx, s, denom)), "0")
@@ -342,7 +375,7 @@ func (w *world) issuanceCases(r *c.Rng) []*tcase {
 		}
 		if len(free) > 0 {
 			x := c.Pick(r, free)
-			out = append(out, &tcase{cmd: "c16.issuance.block", pred: "C16_issuance_block", principal: owner, allowed: isOwner, ownMod: pIssuanceM,
+			out = append(out, &tcase{cmd: "c16.issuance.block", pred: "C16_issuance_block", principal: owner, allowed: isOwner, ownMod: pIssuanceM, relabel: ownerKind,
 				mk: func(s int) sdk.Msg {
 					return issuancetypes.NewMsgBlockAddress(w.addr(s).String(), denom, w.addr(x).String())
 				},
@@ -356,7 +389,7 @@ func (w *world) issuanceCases(r *c.Rng) []*tcase {
 		}
 		if len(blk) > 0 {
 			x := c.Pick(r, blk)
-			out = append(out, &tcase{cmd: "c16.issuance.unblock", pred: "C16_issuance_unblock", principal: owner, allowed: isOwner, ownMod: pIssuanceM,
+			out = append(out, &tcase{cmd: "c16.issuance.unblock", pred: "C16_issuance_unblock", principal: owner, allowed: isOwner, ownMod: pIssuanceM, relabel: ownerKind,
 				mk: func(s int) sdk.Msg {
 					return issuancetypes.NewMsgUnblockAddress(w.addr(s).String(), denom, w.addr(x).String())
 				},
@@ -371,7 +404,7 @@ func (w *world) issuanceCases(r *c.Rng) []*tcase {
 	}
 	{
 		status := r.Bool()
-		out = append(out, &tcase{cmd: "c16.issuance.pause", pred: "C16_issuance_pause", principal: owner, allowed: isOwner, ownMod: pIssuanceM,
+		out = append(out, &tcase{cmd: "c16.issuance.pause", pred: "C16_issuance_pause", principal: owner, allowed: isOwner, ownMod: pIssuanceM, relabel: ownerKind,
 			mk: func(s int) sdk.Msg { return issuancetypes.NewMsgSetPauseStatus(w.addr(s).String(), denom, status) },
 			pre: func(s int) []string {
 				return append(append(append([]string{}, af...), targetFields(s)...), "0", "0", c.B(status))
@@ -388,11 +421,13 @@ func (w *world) issuanceCases(r *c.Rng) []*tcase {
 
 func (w *world) bep3Case(r *c.Rng, toDeputy bool) *tcase {
 	k := w.tApp.GetBep3Keeper()
-	asset, err := k.GetAsset(w.ctx, "bnb")
+	ba := c.Pick(r, bep3Assets)
+	denom := ba.denom
+	asset, err := k.GetAsset(w.ctx, denom)
 	if err != nil {
 		return nil
 	}
-	sup, _ := k.GetAssetSupply(w.ctx, "bnb")
+	sup, _ := k.GetAssetSupply(w.ctx, denom)
 	deputy := w.idx(asset.DeputyAddress)
 	recv := c.Pick(r, []int{pUserA, pUserB, pUserC, pFresh, pOracleA})
 	principal := deputy
@@ -419,9 +454,20 @@ func (w *world) bep3Case(r *c.Rng, toDeputy bool) *tcase {
 	}
 	mkID := func(s int) []byte { return bep3types.CalculateSwapID(rnh, w.addr(s), "bnbSender") }
 	return &tcase{cmd: cmd, pred: pred, principal: principal, allowed: allowed, ownMod: pBep3M,
+		relabel: func(s int) string {
+			if s == deputy {
+				return "bep3-deputy"
+			}
+			for _, o := range bep3Assets {
+				if o.deputy == s {
+					return "other-asset-deputy"
+				}
+			}
+			return ""
+		},
 		mk: func(s int) sdk.Msg {
 			m := bep3types.NewMsgCreateAtomicSwap(w.addr(s).String(), w.addr(recv).String(), "bnbRecipient", "bnbSender",
-				rnh, ts, sdk.NewCoins(coin("bnb", amt)), span)
+				rnh, ts, sdk.NewCoins(coin(denom, amt)), span)
 			return &m
 		},
 		pre: func(s int) []string {
@@ -432,7 +478,7 @@ func (w *world) bep3Case(r *c.Rng, toDeputy bool) *tcase {
 				bigs(asset.SupplyLimit.Limit), c.B(asset.SupplyLimit.TimeLimited), bigs(asset.SupplyLimit.TimeBasedLimit),
 				bigs(sup.CurrentSupply.Amount), bigs(sup.IncomingSupply.Amount), bigs(sup.OutgoingSupply.Amount),
 				bigs(sup.TimeLimitedCurrentSupply.Amount), c.B(dup), i64(amt), i64(ts - w.ctx.BlockTime().Unix()),
-				strconv.FormatUint(span, 10), bigs(w.bal(w.ctx, s, "bnb"))}
+				strconv.FormatUint(span, 10), bigs(w.bal(w.ctx, s, denom))}
 		},
 		post: func(b sdk.Context, s int, ok bool) []string {
 			sw, found := k.GetAtomicSwap(b, mkID(s))
@@ -440,7 +486,7 @@ func (w *world) bep3Case(r *c.Rng, toDeputy bool) *tcase {
 			if found {
 				dir = map[bep3types.SwapDirection]string{bep3types.SWAP_DIRECTION_INCOMING: "in", bep3types.SWAP_DIRECTION_OUTGOING: "out"}[sw.Direction]
 			}
-			s2, _ := k.GetAssetSupply(b, "bnb")
+			s2, _ := k.GetAssetSupply(b, denom)
 			return []string{dir, bigs(s2.IncomingSupply.Amount.Sub(sup.IncomingSupply.Amount))}
 		}}
 }
@@ -455,6 +501,24 @@ func (w *world) committeeFields(com committeetypes.Committee) (members []int, is
 	return
 }
 
+// member of the addressed committee / member of other committees only
+func (w *world) memberKind(com committeetypes.Committee) func(int) string {
+	return func(s int) string {
+		if com.HasMember(w.addr(s)) {
+			if strings.HasPrefix(w.parties[s].kind, "committee-member") {
+				return w.parties[s].kind
+			}
+			return "committee-member"
+		}
+		for _, o := range w.tApp.GetCommitteeKeeper().GetCommittees(w.ctx) {
+			if o.HasMember(w.addr(s)) {
+				return "other-committee-member"
+			}
+		}
+		return ""
+	}
+}
+
 func (w *world) caseSubmit(r *c.Rng) *tcase {
 	ck := w.tApp.GetCommitteeKeeper()
 	cid := uint64(r.Range(1, 3))
@@ -467,6 +531,7 @@ func (w *world) caseSubmit(r *c.Rng) *tcase {
 	prop := govv1beta1.NewTextProposal(fmt.Sprintf("replayed proposal %d", w.nonce), "text")
 	next, _ := ck.GetNextProposalID(w.ctx)
 	return &tcase{cmd: "c16.committee.submit", pred: "C16_committee_submit", principal: c.Pick(r, members), ownMod: -1,
+		relabel: w.memberKind(com),
 		allowed: func(s int) bool { return com.HasMember(w.addr(s)) },
 		mk: func(s int) sdk.Msg {
 			m, err := committeetypes.NewMsgSubmitProposal(prop, w.addr(s), cid)
@@ -503,6 +568,7 @@ func (w *world) caseVote(r *c.Rng) *tcase {
 		vt = c.Pick(r, []committeetypes.VoteType{committeetypes.VOTE_TYPE_YES, committeetypes.VOTE_TYPE_NO, committeetypes.VOTE_TYPE_ABSTAIN})
 	}
 	return &tcase{cmd: "c16.committee.vote", pred: "C16_committee_vote", principal: c.Pick(r, members), ownMod: -1,
+		relabel: w.memberKind(com),
 		allowed: func(s int) bool { return !isMember || com.HasMember(w.addr(s)) },
 		mk:      func(s int) sdk.Msg { return committeetypes.NewMsgVote(w.addr(s), pid, vt) },
 		pre: func(s int) []string {
